@@ -428,6 +428,81 @@ def exactNarrow (model impl spec : String) : Reply :=
   let r := exact model impl spec
   { r with spec := narrowKnown r.agree r.spec }
 
+/-! ### large tables in explicit rayon pools (`ldabig`, `scorepsmst`) -/
+
+/-- the direction as the harness reads it back (`score(identity)`) -/
+def outDir (p : Nat) (w : Option (Vec Float)) : String :=
+  match w with
+  | none => "0"
+  | some w =>
+    let ident : Mat Float := (List.range p).map fun i => (List.range p).map fun j => if i = j then 1.0 else 0.0
+    let r := score w ident
+    let bad := r.any fun x => !x.isFinite
+    join ("1" :: toString p :: r.map fun x => if bad then toString qnan64 else outF x)
+
+/-- are two reported directions within `b` of each other (sine of the angle, same orientation)? -/
+def sameDir (b : Rat) (w w' : List Nat) : Bool :=
+  let wq := w.map fun x => (ratOfF64Bits x).getD 0
+  let wq' := w'.map fun x => (ratOfF64Bits x).getD 0
+  let (num, den) := Q.sin2 wq wq'
+  Q.dotq wq wq' ≥ 0 && decide (num ≤ b * b * den)
+
+/-- `ldabig n p F decoy perm k t1..tk | W_t1 .. W_tk W'`: linear-time parsing (arrays), the model's `train`
+    once for the given order and once for the permuted one (the unchanged `Matrix::mean` is an indexed
+    parallel map over COLUMNS with a sequential sum per column, so the result cannot depend on the pool),
+    exact ℚ statistics once (they are permutation invariant: theorem `stats_perm`).
+    Spec: Fisher clause on the first pool's direction; every other pool's direction and the permuted one
+    must lie within the same bound of it (`bad:thread_dependent`, `bad:row_order`). -/
+def handleLdaBig (args impl : List String) : Option Reply := do
+  let a := args.toArray
+  let n ← (a[0]?).bind String.toNat?
+  let p ← (a[1]?).bind String.toNat?
+  let base := 2 + n * p
+  let k ← (a[base + 2 * n]?).bind String.toNat?
+  if a.size != base + 2 * n + 1 + k then none else
+  let fl (i : Nat) : Float := Float.ofBits ((a[i]!).toNat!.toUInt64)
+  let F : Array (List Float) := (Array.range n).map fun r => (List.range p).map fun j => fl (2 + r * p + j)
+  let decoy : Array Bool := (Array.range n).map fun i => a[base + i]! != "0"
+  let perm : Array Nat := (Array.range n).map fun i => (a[base + n + i]!).toNat!
+  if perm.any (· ≥ n) then none else
+  let w := train constsF Float.sqrt F.toList decoy.toList p
+  let w' := train constsF Float.sqrt (perm.map fun r => F[r]!).toList (perm.map fun r => decoy[r]!).toList p
+  let model := join ((List.replicate k (outDir p w)) ++ [outDir p w'])
+  let spec : String :=
+    if impl == ["panic"] then "bad:panic" else
+    match run (listN (opt (list nat)) (k + 1)) impl with
+    | none => "bad:unparsable_reply"
+    | some ws =>
+      if !(F.all fun r => r.all Float.isFinite) then "na" else
+      let nd := (decoy.toList.filter id).length
+      if nd == 0 || nd == n || p == 0 then "na" else
+      let fq : Mat Rat := F.toList.map fun r => r.map toQ
+      let s := stats fq decoy.toList p
+      let pert := inputPerturbation fq decoy.toList s p
+      match ws.headD none with
+      | none =>
+        (match Q.cond (Q.addDiag s.sw (ladderQ.headD 0)) with
+         | some kappa =>
+           if kappa ≤ kappaStrict && exactRunOk p s.sw s.sb then "bad:failure_where_exact_run_succeeds" else "ok"
+         | none => "ok")
+      | some w1 =>
+        if w1.length != p then "bad:direction_length" else
+        if !(w1.all finiteBits) then "na" else
+        let (v1, b1) := judgeDir p s pert.1 pert.2 (w1.map fun b => (ratOfF64Bits b).getD 0)
+        if v1.startsWith "bad" then v1 else
+        match b1 with
+        | none => v1
+        | some (b, _) =>
+          -- both directions within `b` of the exact one, hence within `2b` of each other
+          let others := (ws.drop 1).take (k - 1)
+          if others.any (fun o => match o with
+              | some wt => !(wt.length == p && wt.all finiteBits && sameDir (2 * b) w1 wt)
+              | none => true) then "bad:thread_dependent" else
+          match ws.getD k none with
+          | some wp => if wp.length == p && wp.all finiteBits && sameDir (2 * b) w1 wp then "ok" else "bad:row_order"
+          | none => "bad:row_order"
+  pure (exactNarrow model (join impl) spec)
+
 def handle (op : String) (args impl : List String) : Option Reply :=
   match op with
   | "gauss" => do
@@ -466,6 +541,8 @@ def handle (op : String) (args impl : List String) : Option Reply :=
     let model := outW w ++ " " ++ outW w'
     pure (exactNarrow model (join impl) (specLda n p F decoy perm impl))
   | "scorepsms" => handleScorePsms args impl
+  | "ldabig" => handleLdaBig args impl
+  | "scorepsmst" => handleScorePsms (args.drop 1) impl
   | _ => none
 
 end Sage.C15
